@@ -583,6 +583,16 @@ Generic_set_xor(PyObject* self, PyObject* other)
     PyObject* set_other = NULL;
     PyObject* set_xor = NULL;
     PyObject* result = NULL;
+    PyObject* maker = self;
+
+    /* A binary slot is also called for "iterable ^ set", with the operands
+     * in that order:  the result is built by the operand that is a set,
+     * not by the type of whatever stands on the left.
+     */
+    if (!(Py_TYPE(self)->tp_as_number
+          && Py_TYPE(self)->tp_as_number->nb_xor
+             == (binaryfunc)Generic_set_xor))
+        maker = other;
 
     set_self = PySet_New(self);
     set_other = PySet_New(other);
@@ -595,7 +605,7 @@ Generic_set_xor(PyObject* self, PyObject* other)
         goto err;
     }
 
-    result = PyObject_CallFunctionObjArgs((PyObject*)Py_TYPE(self), set_xor, NULL);
+    result = PyObject_CallFunctionObjArgs((PyObject*)Py_TYPE(maker), set_xor, NULL);
 
 err:
     Py_XDECREF(set_self);
